@@ -13,3 +13,5 @@ import GoFlags.Props.C17
 #print axioms GoFlags.C17.wrapSegs_width
 #print axioms GoFlags.C17.wrapSegs_preserves
 #print axioms GoFlags.C17.wrapLine_pieces
+#print axioms GoFlags.C17.runeCount_append_spaces
+#print axioms GoFlags.C17.description_column_is_common
